@@ -73,13 +73,15 @@ partial def fixS : SExp.S → SExp.S
   | .list xs => .list (xs.map fixS)
 
 def progText (m : String) : Option ProgText :=
-  if m.startsWith "!" then (m.drop 1).toString.toNat?.map ProgText.bad
+  if m.startsWith "@" then (m.drop 1).toString.toNat?.bind opProgText
+  else if m.startsWith "!" then (m.drop 1).toString.toNat?.map ProgText.bad
   else match SExp.readAll (strOfHex m) with
     | some xs => (SExp.toStmts (xs.map fixS)).map ProgText.good
     | none => none
 
 def exprText (m : String) : Option ExprText :=
-  if m.startsWith "!" then (m.drop 1).toString.toNat?.map ExprText.bad
+  if m.startsWith "@" then (m.drop 1).toString.toNat?.bind opExprText
+  else if m.startsWith "!" then (m.drop 1).toString.toNat?.map ExprText.bad
   else match SExp.readAll (strOfHex m) with
     | some [x] => (SExp.toExpr (fixS x)).map ExprText.good
     | _ => none
@@ -146,11 +148,25 @@ def runWords (ws : List String) : String :=
 
 def hexOfString (s : String) : String := hexOfBytes s.toUTF8.toList
 
+def formName : OForm → String
+  | .lit => "lit" | .var => "var" | .paren => "paren" | .call => "call" | .memb => "memb"
+
+/-- One operator case for the check: spelling, operand form, verdict of the typing model (`A` accepted with an AST,
+`M` accepted without one — `matches` —, `J` rejected), which side is ill-typed on its own (`L`, `R`, `LR`, `-`),
+the two sources. The op word `@i` (i = position in this list) stands for the model's text of case i. -/
+def opCaseWord (oc : OpCase) : String :=
+  hexOfString oc.spell ++ ":" ++ formName oc.form ++ ":" ++
+  (if oc.rejected then "J" else if oc.ast.isSome then "A" else "M") ++ ":" ++
+  (let f := (if oc.leftBad then "L" else "") ++ (if oc.rightBad then "R" else ""); if f.isEmpty then "-" else f) ++ ":" ++
+  hexOfString oc.exprSrc ++ ":" ++ hexOfString oc.progSrc ++ ":" ++ (if oc.unary then "u" else "b")
+
 def handle (words : List String) : Option String :=
   match words with
   | "seq" :: ops => some (runWords ops)
   | ["c15bad"] => some ("progs=" ++ ",".intercalate (badProgs.map fun b => hexOfString b.src) ++
-                        " exprs=" ++ ",".intercalate (badExprs.map fun b => hexOfString b.src))
+                        " exprs=" ++ ",".intercalate (badExprs.map fun b => hexOfString b.src) ++
+                        " hand=" ++ toString handBadProgs.length ++ "," ++ toString handBadExprs.length)
+  | ["c15ops"] => some ("ops=" ++ ",".intercalate (opCases.map opCaseWord))
   | _ => none
 
 end BlocV.DrvC15
